@@ -66,6 +66,35 @@ B3 = {
  "C19-3": ("C19", "a genuine handshake first, then a forged certificate copying the genuine one's issuer DN and serial number", "'already verified' cache keyed by unverified fields: forgery accepted, CQL bytes sent"),
  "C20-3": ("C20", "tokens for this proxy, its own entry (with tokens) in the shared peers list, and a remote peer without tokens", "own entry counted as a peer with tokens: configuration accepted"),
 }
+B4 = {
+ "C03-4": ("C03", "MaxVersion >= v5/DSE; PREPARE by one version family, EXECUTE by the other, first re-prepare fails, second re-prepare from the cache", "cached PREPARE gets the other version's header with the old body: backend cannot decode it"),
+ "C04-5": ("C04", "NOW()/Uuid()/system.UUID() spelled in upper or mixed case plus a retryable fault", "statement classified idempotent and re-sent"),
+ "C04-6": ("C04", "an embedder's retry policy that returns RetrySame for error responses, non-idempotent request", "idempotency check only guards RetryNext: request re-sent to the same host"),
+ "C05-5": ("C05", "a retryable error whose frame carries a tracing id / warnings / custom payload, or is compressed", "error code peeked without looking at the flags: no retry"),
+ "C05-6": ("C05", "two connections per host, one lost, a request before the first reconnect attempt has run", "closed connection left in its slot: healthy host skipped"),
+ "C06-5": ("C06", ">= 1024 UDT literals in one statement or batch", "nesting-depth counter leaks per UDT literal: plain statement reported not idempotent"),
+ "C06-6": ("C06", "now()/uuid() qualified with SYSTEM / System / \"system\"", "keyspace compared without case folding: reported idempotent"),
+ "C07-5": ("C07", "a compressed session exists, then a host joins, then a compressed request is routed to it", "late pools handshake without compression"),
+ "C08-5": ("C08", "a prepared statement of a kind the proxy does not classify (TRUNCATE, GRANT ...) or a shared prepared cache", "EXECUTE answered UNPREPARED by the proxy itself"),
+ "C09-5": ("C09", "qualified system table followed by LIMIT / ALLOW FILTERING / ORDER BY", "table name overwritten by the following word: read forwarded"),
+ "C09-6": ("C09", "the identical unqualified text first outside keyspace system, then inside", "'not handled' verdict cached by text only: system read forwarded"),
+ "C10-4": ("C10", "peers configured, no tokens, self not the lowest address", "precomputed peers slice aliases the array that is sorted afterwards: self listed as a peer"),
+ "C10-5": ("C10", "no rpc-address, clients arriving through different local addresses", "host_id memoised proxy-wide: the first client's address decides for all"),
+ "C12-4": ("C12", "override level ANY (wire value 0)", "taken for unset and replaced by LOCAL_QUORUM"),
+ "C12-5": ("C12", "EXECUTE of an unknown id (UNPREPARED), then PREPARE of the SELECT, then EXECUTE, on one connection", "stale per-connection 'not a SELECT' cache: SELECT rewritten"),
+ "C13-5": ("C13", "STARTUP with lz4, then a compressed bodiless OPTIONS", "zero length prefix rejected: connection closed"),
+ "C14-5": ("C14", "control fail-over that first tries a node speaking only an older version", "turned-down connection stays registered: every event twice"),
+ "C14-6": ("C14", "REGISTER [SCHEMA_CHANGE], later REGISTER without it on the same connection", "second REGISTER replaces the first: client stops getting events"),
+ "C15-5": ("C15", "a remove-only refresh of host X, then X rejoins", "host list kept unless something was added: X never announced again"),
+ "C15-6": ("C15", "endpoints that share Addr() and differ in Key() (Astra), host joining after bootstrap", "AddEvent ignored for a 'known' address"),
+ "C16-5": ("C16", "a lost pooled connection whose first reconnect is answered with an error other than refused/reset/EOF", "slot stops reconnecting for good"),
+ "C17-5": ("C17", "EXECUTE / BATCH child with a prepared id shorter than 16 bytes, answered with an error that triggers the idempotency lookup", "slice-to-array conversion panics: process dies"),
+ "C18-5": ("C18", "schema event while a client reads system.local/peers", "unsynchronised map write in OnEvent"),
+ "C18-6": ("C18", "two UNPREPARED answers on different backend connections at once", "LRU Get (a write) under a read lock"),
+ "C19-4": ("C19", "impostor presenting its own certificate followed by a copy of the genuine one", "any certificate of the list may serve as the verified leaf: impostor accepted"),
+ "C20-4": ("C20", "unsupported-write-consistency-override any", "zero value defaulted to LOCAL_QUORUM: 'any' and 'local_quorum' select the same value"),
+}
+B3.update(B4)
 B2.update(B3)
 
 FALSE_SIGS = ["C14/registered-client-got-no-copy", "C14/unregistered-client-got-event", "C14/event-lost/witness", "C16/healed-host-gets-no-traffic/", "C16/outage-not-reported-while-down",
@@ -92,7 +121,7 @@ for sid in sorted(os.listdir(os.path.join(V, "seeded"))):
         demos = sorted(f for f in os.listdir(d) if f not in ("patch.diff", "meta.json", "notes.md"))
         meta = {
             "id": sid, "breaks_property": prop,
-            "origin": "fresh sub-agent given only the property text and a scratch worktree of /repo (commit %s)" % ("98f4792" if sid in B3 else "2fe6b89"),
+            "origin": "fresh sub-agent given only the property text and a scratch worktree of /repo (commit %s)" % ("19163b6-ish (78cb41b)" if sid in B4 else "98f4792" if sid in B3 else "2fe6b89"),
             "needs_to_manifest": needs, "effect": effect, "demonstration": demos,
             "confirmed": "bin/seedconfirm in the scratch worktree: patch applies, go build ok, existing suite passes with it (in a private network namespace), demonstration FAILS with the patch and PASSES without it",
             "checks_run": "bin/seedtest seeded/%s/patch.diff quick %s ; bin/seedmatrix quick" % (sid, prop),
